@@ -12,11 +12,12 @@ git apply --check SEED/patch.diff || { echo "patch does not apply"; exit 2; }
 DEMO="$DDIR/zz_seed_demo_test.go"
 cp SEED/demo_test.go "$DEMO"
 echo "== pristine: demo must PASS"
-go test -vet=off -count=1 -run "$DRE" "./$DDIR/" 2>&1 | tail -3
+go test -vet=off -count=1 -run "$DRE" "./$DDIR/" >/tmp/seedcheck.$$.log 2>&1; P1=$?; tail -3 /tmp/seedcheck.$$.log
 git apply SEED/patch.diff
 echo "== patched: build + demo must FAIL"
 go build ./... 2>&1 | tail -3
-go test -vet=off -count=1 -run "$DRE" "./$DDIR/" 2>&1 | tail -4
+go test -vet=off -count=1 -run "$DRE" "./$DDIR/" >/tmp/seedcheck.$$.log 2>&1; P2=$?; tail -4 /tmp/seedcheck.$$.log; rm -f /tmp/seedcheck.$$.log
+echo "SEED-CONFIRM name=$NAME demo_on_pristine=$([ $P1 -eq 0 ] && echo PASS || echo FAIL) demo_with_patch=$([ $P2 -ne 0 ] && echo FAIL || echo PASS)"
 echo "== patched: existing tests of touched packages"
 for d in $(git diff --name-only | xargs -n1 dirname | sort -u); do rm -f "$DEMO.bak"; done
 mv "$DEMO" /tmp/seed_demo_hold.go
